@@ -16,7 +16,9 @@ Import ListNotations.
 Local Open Scope Q_scope.
 
 Record upd := mkU { u_c : Q; u_d : Q; u_dr : Q; u_p : Q; u_pr : Q }.
-Definition v4_eps : Q := 1 # 1000000.
+(* 1e-6 s and the + 1 s of final_time: regenerated from _calc_delay *)
+Definition v4_eps : Q := 1 / inject_Z v4_delay_eps_inv.
+Definition v4_pad : Q := inject_Z v4_delay_final_pad.
 
 Definition u_time (S F : Q) (u : upd) : Q := S + u_c u / F.
 Definition qmax (a b : Q) : Q := if Qle_bool a b then b else a.
@@ -24,7 +26,7 @@ Definition qmax (a b : Q) : Q := if Qle_bool a b then b else a.
 (* max(times[-1], cache.timestamps[-1]) + 1; None when there is no update or no dump (the code raises) *)
 Definition v4_final (S F : Q) (ups : list upd) (ts : list Q) : option Q :=
   match ups, ts with
-  | u0 :: _, t0 :: _ => Some (qmax (u_time S F (List.last ups u0)) (List.last ts t0) + 1)
+  | u0 :: _, t0 :: _ => Some (qmax (u_time S F (List.last ups u0)) (List.last ts t0) + v4_pad)
   | _, _ => None
   end.
 
